@@ -24,11 +24,24 @@ class LoopCtx:
     def __init__(self, st0: St, st: St, i, it: Optional[Iter], fr: Frame):
         self.st0, self.st, self.i, self.it, self.fr = st0, st, i, it, fr
 
+    def _resolve(self, st: St, name: str) -> V:
+        if name in st.loc:
+            return st.loc[name]
+        fi = getattr(self.fr, "finfo", None) if self.fr is not None else None
+        if fi is not None:
+            from .front import alias_of
+
+            a = alias_of(fi, name)
+            if a is not None and a in st.loc:
+                return st.loc[a]
+        # never a crash: a renamed / restructured local that the invariant needs makes the unit undecided
+        raise Unsupported(f"the loop invariant of {getattr(fi, 'qualname', '?')} refers to the local `{name}`, which does not exist any more")
+
     def loc(self, name: str) -> V:
-        return self.st.loc[name]
+        return self._resolve(self.st, name)
 
     def loc0(self, name: str) -> V:
-        return self.st0.loc[name]
+        return self._resolve(self.st0, name)
 
 
 def havoc_like(v: V, prefix: str) -> V:
